@@ -3,7 +3,7 @@
 import glob, json, os, shutil, sys
 ROUND = sys.argv[1] if len(sys.argv) > 1 else "1"   # "1": /tmp/mut, ids <PROP>-m<k>; "2": /tmp/mut2, ids <PROP>-r2m<k>
 SRC = "/tmp/mut" if ROUND == "1" else f"/tmp/mut{ROUND}"
-PREFIX = "" if ROUND == "1" else f"r{ROUND}"
+PREFIX = "" if ROUND == "1" else (sys.argv[2] if len(sys.argv) > 2 else f"r{ROUND}")  # e.g. `collect_seeded.py 4 r3`: /tmp/mut4 -> ids <PROP>-r3m<k>
 res = {}
 for f in sorted(glob.glob(os.path.join(SRC, "results*.json"))):
     if os.path.exists(f):
